@@ -41,7 +41,8 @@ class SurfaceEvolver:
             edges[int(r.id)].gt = round(edges_temp.loc[edges_temp['id'] == int(r.id)]['force'].iloc[0], 4)
 
         cells = {}
-        for _, r in self.get_cells().iterrows():
+        cells_df = self.get_cells()
+        for _, r in cells_df.iterrows():
             vlist = [edges[abs(e)].v1 if e > 0 else edges[abs(e)].v2 for e in r.edges]
             gt_pressure = round(r["pressures"], 4)
             cells[int(r.id)] = cell.Cell(int(r.id), vlist, gt_pressure=gt_pressure)
@@ -60,6 +61,11 @@ class SurfaceEvolver:
                     pass
         
             del vertices[i]
+
+        # an edge record that belongs to no face is dropped as well
+        used_edges = {abs(e) for face_edges in cells_df["edges"] for e in face_edges}
+        for eid in [k for k in edges if k not in used_edges]:
+            del edges[eid]
 
         return vertices, edges, cells
 
